@@ -2,10 +2,32 @@
    (one statement over the reflective `prim`, by case analysis from the per-emitter theorems). *)
 From V Require Import Base.Bits Gen.WireOps Gen.Helpers Gen.Prims Model.VSyntax Model.VSem Model.Inline Model.SimKernel Model.C01Prim
   Proofs.C01.InlineSound Proofs.C01.InlineSound2.
+From V Require Import Spec.C08 Model.StructLogic Properties.C08.
 
 Lemma combine_widths_vals env (ins : list nid) :
   combine (map snd ins) (map (getv env) (map fst ins)) = map (fun n => (snd n, getv env (fst n))) ins.
 Proof. induction ins as [|n t IH]; cbn [map combine]; [reflexivity | now rewrite IH]. Qed.
+
+(* ---- glue between the emitter lemmas (bitwise folds, b2z) and C08's specifications of the structural ladders *)
+Lemma trunc_lnot_spec w x : 0 <= w -> trunc w (Z.lnot x) = (2 ^ w - 1 - x) mod 2 ^ w.
+Proof.
+  intros Hw. rewrite trunc_mod by exact Hw. unfold Z.lnot.
+  replace (2 ^ w - 1 - x) with (Z.pred (- x) + 1 * 2 ^ w) by lia. now rewrite Z_mod_plus_full.
+Qed.
+
+Lemma fold_land_all {A} (g : A -> Z) : forall t acc,
+  fold_left (fun acc n => Z.land acc (g n)) t acc = Z.land acc (land_all (map g t)).
+Proof.
+  induction t as [|a t IH]; intros acc; cbn [fold_left map land_all fold_right]; [now rewrite Z.land_m1_r|].
+  rewrite IH. unfold land_all. now rewrite Z.land_assoc.
+Qed.
+
+Lemma fold_lor_all {A} (g : A -> Z) : forall t acc,
+  fold_left (fun acc n => Z.lor acc (g n)) t acc = Z.lor acc (lor_all (map g t)).
+Proof.
+  induction t as [|a t IH]; intros acc; cbn [fold_left map lor_all fold_right]; [now rewrite Z.lor_0_r|].
+  rewrite IH. unfold lor_all. now rewrite Z.lor_assoc.
+Qed.
 
 Section S.
 Variable env : list Z.
@@ -52,5 +74,54 @@ Proof.
   - first3. rewrite combine_widths_vals.
     apply (inl_concat_sound env r ins); auto; [destruct ins; [discriminate|congruence] | lia].
   - first3. apply inl_repeat_sound; auto; lia.
+  - (* Xor2: a ^ b  =  the 4-NAND network (C08_xor2) *)
+    assert (Ha : okn env a) by assumption. assert (Hb : okn env b) by assumption.
+    first3. rewrite (bin_ctx env r a b BXor eq_refl) by (first [assumption | discriminate | lia]). cbn [bop].
+    rewrite C08_xor2; [unfold xor2_spec; apply trunc_mod; lia | lia | destruct Hb; lia | exact (proj2 Ha) | exact (proj2 Hb)].
+  - (* Nand2: ~(a & b)  =  Not(And2) with Mid of a's width (C08_nand2) *)
+    assert (Ha : okn env a) by assumption. assert (Hb : okn env b) by assumption.
+    first3. match goal with |- assign_value env ?l0 ?e0 = _ => rewrite (inl_nnary_sound env BAnd r a [b] eq_refl Ha (Forall_cons _ Hb (Forall_nil _)) ltac:(lia) l0 e0 eq_refl) end.
+    cbn [fold_left bop].
+    rewrite C08_nand2; [unfold nand2_spec; apply trunc_lnot_spec; lia | destruct Ha; lia | lia | exact (proj2 Ha)].
+  - (* Nor2 *)
+    assert (Ha : okn env a) by assumption. assert (Hb : okn env b) by assumption.
+    first3. match goal with |- assign_value env ?l0 ?e0 = _ => rewrite (inl_nnary_sound env BOr r a [b] eq_refl Ha (Forall_cons _ Hb (Forall_nil _)) ltac:(lia) l0 e0 eq_refl) end.
+    cbn [fold_left bop].
+    rewrite C08_nor2; [unfold nor2_spec; apply trunc_lnot_spec; lia | destruct Ha; lia | lia | exact (proj2 Ha) |].
+    destruct Hb as [Hwb Hvb]. unfold fits. eapply small_in_wider; [|exact Hvb]. lia.
+  - (* And: a0 & a1 & ...  =  the And2 ladder (C08_and) *)
+    destruct ins as [|x t]; [discriminate|]. inv_forall.
+    assert (Hx : okn env x) by assumption. assert (Ht : Forall (okn env) t) by assumption.
+    first3. match goal with |- assign_value env ?l0 ?e0 = _ => rewrite (inl_nary_sound env BAnd r x t eq_refl Hx Ht ltac:(lia) l0 e0 eq_refl) end. cbn [bop].
+    rewrite C08_and by (try lia; discriminate). unfold and_spec. cbn [map land_all fold_right]. rewrite map_map.
+    rewrite (fold_land_all (fun n => getv env (fst n))). unfold land_all. apply trunc_mod. lia.
+  - (* Or *)
+    destruct ins as [|x t]; [discriminate|]. inv_forall.
+    assert (Hx : okn env x) by assumption. assert (Ht : Forall (okn env) t) by assumption.
+    first3. match goal with |- assign_value env ?l0 ?e0 = _ => rewrite (inl_nary_sound env BOr r x t eq_refl Hx Ht ltac:(lia) l0 e0 eq_refl) end. cbn [bop].
+    rewrite C08_or by (try lia; discriminate). unfold or_spec. cbn [map lor_all fold_right]. rewrite map_map.
+    rewrite (fold_lor_all (fun n => getv env (fst n))). unfold lor_all. apply trunc_mod. lia.
+  - (* Nor: ~(a0 | a1 | ...)  =  Not(Or ladder) with Mid of the first operand's width (C08_nor) *)
+    destruct ins as [|x t]; [discriminate|]. inv_forall.
+    assert (Hx : okn env x) by assumption. assert (Ht : Forall (okn env) t) by assumption.
+    assert (Hle : forallb (fun n => snd n <=? snd x) t = true) by assumption.
+    first3. match goal with |- assign_value env ?l0 ?e0 = _ => rewrite (inl_nnary_sound env BOr r x t eq_refl Hx Ht ltac:(lia) l0 e0 eq_refl) end. cbn [bop].
+    rewrite C08_nor; [| destruct Hx; lia | lia | discriminate |].
+    + unfold nor_spec. cbn [map lor_all fold_right]. rewrite map_map.
+      rewrite (fold_lor_all (fun n => getv env (fst n))). unfold lor_all. apply trunc_lnot_spec. lia.
+    + cbn [map]. constructor; [exact (proj2 Hx)|].
+      rewrite map_map. apply Forall_forall. intros v Hv. apply in_map_iff in Hv. destruct Hv as (n & <- & Hn).
+      rewrite Forall_forall in Ht. destruct (Ht n Hn) as [Hwn Hvn].
+      rewrite forallb_forall in Hle. specialize (Hle n Hn).
+      unfold fits. eapply small_in_wider; [|exact Hvn]. lia.
+  - (* Equal: (a == b) ? 1 : 0  =  Xor2 + BitsLSBF + Nor (C08_equal), equal operand widths *)
+    assert (Ha : okn env a) by assumption. assert (Hb : okn env b) by assumption.
+    first3. match goal with |- assign_value env ?l0 ?e0 = _ => rewrite (inl_equal_sound env r a b Ha Hb ltac:(lia) l0 e0 eq_refl) end.
+    replace (snd b) with (snd a) by lia. rewrite C08_equal; [reflexivity | destruct Ha; lia | exact (proj2 Ha) |].
+    destruct Hb as [Hwb Hvb]. unfold fits. replace (snd a) with (snd b) by lia. exact Hvb.
+  - (* EqualConstant: (a == K) ? 1 : 0  =  Minterm over the bits of a (C08_equal_constant), 0 <= K < 2^w *)
+    assert (Ha : okn env a) by assumption.
+    first3. match goal with |- assign_value env ?l0 ?e0 = _ => rewrite (inl_equalconst_sound env r a v Ha ltac:(lia) ltac:(lia) l0 e0 eq_refl) end.
+    replace (snd r) with 1 by lia. rewrite C08_equal_constant; [reflexivity | destruct Ha; lia | exact (proj2 Ha) | unfold fits; lia].
 Qed.
 End S.
